@@ -23,7 +23,7 @@ PROPERTY = "C15"
 RULE = ("schemas: seeded gen/schema.py descriptions built from SDL and re-built in code (enum internal values != names, "
         "string defaults with quotes/backslashes/control characters, list / input-object / null defaults, deprecated fields "
         "and enum values with and without reasons, descriptions, custom directives with arguments, mutation/subscription roots) "
-        "+ corpus; executed with BlockingExecutor and Executor on BlockingRuntime (all), AsyncIORuntime (private loop) and "
+        "+ the same descriptions built from instances of SUBCLASSES of every library type class (incl. wrappers, RegexType, UUID) and compared with the plain-class twin + corpus; executed with BlockingExecutor and Executor on BlockingRuntime (all), AsyncIORuntime (private loop) and "
         "ThreadPoolRuntime(2) (subset); includeDeprecated true/false/omitted; introspection enabled/disabled. "
         "non-trivial = distinct (schema, aspect) with at least one user type beyond Query")
 ASSUMPTIONS = [
@@ -309,7 +309,7 @@ def cases(ctx):
             break
         seed = ctx.rng.randrange(1 << 30)
         size = 1 + i % 3
-        for mode in ("sdl", "code"):
+        for mode in ("sdl", "code", "code-sub"):
             c = {"mode": mode, "seed": seed, "size": size}
             yield ("gen:%s" % mode,) + load_case(c)
 
@@ -336,6 +336,12 @@ def load_case(c):
     d["directives"] = [x for x in full["directives"] if x["name"] not in ("include", "skip", "deprecated")]
     L.sprinkle_string_defaults(rng, d)
     em = L.make_enum_map(rng, d)
+    if c["mode"] == "code-sub":
+        # every type object is an instance of a SUBCLASS of the library class (+ RegexType / UUID of the library)
+        d = L.add_library_scalars(d)
+        if c.get("twin"):
+            return L.build_code(d, em), c       # the plain-class twin of the same description
+        return L.build_code(d, em, subclass=True), c
     return L.build_code(d, em), c
 
 
@@ -478,6 +484,23 @@ def oracle_schema(ctx, label, schema, case, cfgs, model_reqs):
     return base
 
 
+def oracle_subclass_twin(ctx, case, base):
+    """Type objects that are instances of subclasses of the library classes (ScalarType subclasses are the
+    documented way to write custom scalars; RegexType is one) are reported exactly like their plain-class twins."""
+    twin, _ = load_case(dict(case, twin=True))
+    st, r = L.execute(twin, std_query(), "blocking")
+    ctx.count()
+    ctx.nontrivial(("subclass-twin", case.get("seed")))
+    if st != "ok" or r.get("errors"):
+        ctx.notes.append("plain twin of %r could not be introspected" % (case,))
+        return
+    if r["data"] != base:
+        p = L.first_diff(r["data"], base)
+        ctx.fail("subclass-instance-differs:" + L.diff_class(p or ""),
+                 "a schema built from instances of SUBCLASSES of the library type classes is reported differently from its plain-class twin (at %s)" % p,
+                 {"case": case, "check": "subclass-twin", "path": p})
+
+
 def world_value(t, depth=0):
     from py_gql.schema import EnumType, ListType, NonNullType, ObjectType, ScalarType
     if isinstance(t, NonNullType):
@@ -487,7 +510,8 @@ def world_value(t, depth=0):
     if isinstance(t, EnumType):
         return t.values[0].value
     if isinstance(t, ScalarType):
-        return {"Int": 7, "Float": 1.5, "String": "s", "Boolean": True, "ID": "id"}.get(t.name, "sc")
+        return {"Int": 7, "Float": 1.5, "String": "s", "Boolean": True, "ID": "id", "Rx": "aa",
+                "UUID": "12345678-1234-5678-1234-567812345678"}.get(t.name, "sc")
     if isinstance(t, ObjectType):
         return {}
     return None
@@ -666,6 +690,8 @@ def _run(ctx):
             ctx.notes.append("generated schema invalid (%s): skipped %r" % (type(e).__name__, case))
             continue
         base = oracle_schema(ctx, label, schema, case, cfgs, None)
+        if case["mode"] == "code-sub" and base is not None:
+            oracle_subclass_twin(ctx, case, base)
         if i <= 3:
             ctx.sample({"case": case, "types": sorted(schema.types)[:12]})
         if ctx.model_ok and base is not None:
